@@ -75,7 +75,7 @@ func (c *c18) RunCase(w *core.Worker, idx int, seed uint64, res *core.CaseResult
 	}
 	opt := idx % 8
 	sbi := &config.SBI{Type: "netconf", Address: "127.0.0.1", Port: 1, ConnectRetry: time.Hour, Timeout: time.Second,
-		Credentials: &config.Creds{Username: "u", Password: "p"},
+		Credentials:    &config.Creds{Username: "u", Password: "p"},
 		NetconfOptions: &config.SBINetconfOptions{IncludeNS: opt&1 != 0, OperationWithNamespace: opt&2 != 0, UseOperationRemove: opt&4 != 0, CommitDatastore: commitDS}}
 	drv := fixture.NewFakeDrv()
 	c.h.pool = poolFor(histPools[idx%4])
